@@ -332,7 +332,10 @@ func (m apiNoBodyStruct) Request(ctx context.Context, req http.RequestGetter, fi
 			p.WriteDefaultOrEmpty(f)
 		} else {
 			// TODO: pass conv options to decide
-			p.WriteStringWithDesc(val, f.Type(), opts.DisallowUnknownField, !opts.NoBase64Binary)
+			if err := p.WriteStringWithDesc(val, f.Type(), opts.DisallowUnknownField, !opts.NoBase64Binary); err != nil {
+				p.Recycle()
+				return "", err
+			}
 		}
 		// p.WriteFieldEnd()
 	}
